@@ -421,3 +421,143 @@ func HarnessC02Periodic() {
 	vndAssert(t1 == v2, "exports-add-up-to-the-recorded-total")
 	vndAssert(sd == 1, "exporter-shut-down-once")
 }
+
+// C08.instcallbacks: the six observable instrument kinds created with their own
+// callback option (WithInt64Callback / WithFloat64Callback), read by a delta and
+// a cumulative reader over CYCLES cycles: each reader's pipeline sees each
+// observation exactly once
+func HarnessC08InstrumentCallbacks() {
+	rd := NewManualReader(WithTemporalitySelector(pipeDelta))
+	rc := NewManualReader()
+	mp := pipeProvider(nil, rd, rc)
+	meter := mp.Meter("m")
+	kind := vndChoice(6)
+	ncb := 1 + vndChoice(2) // one or two callbacks on the instrument
+	var cur [2]int64
+	set := func(i int) metric.MeasurementOption { return metric.WithAttributeSet(pipeSets[i]) }
+	var err error
+	if kind < 3 {
+		var opts []metric.Int64ObservableOption
+		for i := 0; i < ncb; i++ {
+			i := i
+			opts = append(opts, metric.WithInt64Callback(func(_ context.Context, o metric.Int64Observer) error {
+				o.Observe(cur[i], set(i))
+				return nil
+			}))
+		}
+		switch kind {
+		case 0:
+			var oc []metric.Int64ObservableCounterOption
+			for _, o := range opts {
+				oc = append(oc, o)
+			}
+			_, err = meter.Int64ObservableCounter("o", oc...)
+		case 1:
+			var oc []metric.Int64ObservableUpDownCounterOption
+			for _, o := range opts {
+				oc = append(oc, o)
+			}
+			_, err = meter.Int64ObservableUpDownCounter("o", oc...)
+		case 2:
+			var oc []metric.Int64ObservableGaugeOption
+			for _, o := range opts {
+				oc = append(oc, o)
+			}
+			_, err = meter.Int64ObservableGauge("o", oc...)
+		}
+	} else {
+		var opts []metric.Float64ObservableOption
+		for i := 0; i < ncb; i++ {
+			i := i
+			opts = append(opts, metric.WithFloat64Callback(func(_ context.Context, o metric.Float64Observer) error {
+				o.Observe(float64(cur[i]), set(i))
+				return nil
+			}))
+		}
+		switch kind {
+		case 3:
+			var oc []metric.Float64ObservableCounterOption
+			for _, o := range opts {
+				oc = append(oc, o)
+			}
+			_, err = meter.Float64ObservableCounter("o", oc...)
+		case 4:
+			var oc []metric.Float64ObservableUpDownCounterOption
+			for _, o := range opts {
+				oc = append(oc, o)
+			}
+			_, err = meter.Float64ObservableUpDownCounter("o", oc...)
+		case 5:
+			var oc []metric.Float64ObservableGaugeOption
+			for _, o := range opts {
+				oc = append(oc, o)
+			}
+			_, err = meter.Float64ObservableGauge("o", oc...)
+		}
+	}
+	vndAssert(err == nil, "instrument-created")
+	gauge := kind == 2 || kind == 5
+	var prev [2]int64
+	cycles := vndParam("CYCLES", 2)
+	for c := 0; c < cycles; c++ {
+		for j := range cur {
+			cur[j] = int64(vndInt(0, 50))
+		}
+		var rmD, rmC metricdata.ResourceMetrics
+		vndAssert(rd.Collect(context.Background(), &rmD) == nil, "collect-no-error")
+		vndAssert(rc.Collect(context.Background(), &rmC) == nil, "collect-no-error")
+		for which, rm := range []*metricdata.ResourceMetrics{&rmD, &rmC} {
+			// reported values, each in its own number domain
+			var attrs []attribute.Set
+			var vals []float64
+			var ivals []int64
+			for _, sm := range rm.ScopeMetrics {
+				for _, m := range sm.Metrics {
+					switch d := m.Data.(type) {
+					case metricdata.Sum[int64]:
+						for _, p := range d.DataPoints {
+							attrs, ivals = append(attrs, p.Attributes), append(ivals, p.Value)
+						}
+					case metricdata.Sum[float64]:
+						for _, p := range d.DataPoints {
+							attrs, vals = append(attrs, p.Attributes), append(vals, p.Value)
+						}
+					case metricdata.Gauge[int64]:
+						for _, p := range d.DataPoints {
+							attrs, ivals = append(attrs, p.Attributes), append(ivals, p.Value)
+						}
+					case metricdata.Gauge[float64]:
+						for _, p := range d.DataPoints {
+							attrs, vals = append(attrs, p.Attributes), append(vals, p.Value)
+						}
+					}
+				}
+			}
+			vndAssert(len(attrs) == ncb, "exactly-the-observed-sets-are-reported")
+			for i := 0; i < ncb; i++ {
+				found := false
+				for k := range attrs {
+					if attrs[k].Equals(&pipeSets[i]) {
+						found = true
+						if kind < 3 {
+							want := cur[i]
+							if which == 0 && !gauge {
+								want = cur[i] - prev[i]
+							}
+							vndAssert(ivals[k] == want, "each-pipeline-sees-each-observation-exactly-once")
+						} else {
+							want := float64(cur[i])
+							if which == 0 && !gauge {
+								want = float64(cur[i]) - float64(prev[i])
+							}
+							vndAssert(vals[k] == want, "each-pipeline-sees-each-observation-exactly-once")
+						}
+					}
+				}
+				vndAssert(found, "observed-set-is-reported")
+			}
+		}
+		prev = cur
+	}
+	vndReach("cycles-done")
+}
